@@ -379,6 +379,7 @@ func sdRandomCase(r *rand.Rand) (Text, []SDDef) {
 
 func sdRandom(c *lib.Ctx) error {
 	n := c.Pick(1500, 20000)
+	rng := rand.New(rand.NewSource(c.Seed*104729 + 2))
 	var recs []sdRecorded
 	// directed probe for the recorded finding
 	type in struct {
@@ -387,7 +388,7 @@ func sdRandom(c *lib.Ctx) error {
 	}
 	ins := []in{{Text{Segs: []Seg{seg1("a\n", Style{At: 1})}}, []SDDef{}}}
 	for i := 0; i < n; i++ {
-		t, defs := sdRandomCase(c.Rand)
+		t, defs := sdRandomCase(rng)
 		ins = append(ins, in{t, defs})
 	}
 	for _, x := range ins {
@@ -408,7 +409,7 @@ func sdRandom(c *lib.Ctx) error {
 		recs = append(recs, sdRecorded{x.t, x.defs, out})
 		c.Distinct(x)
 	}
-	bad, err := lib.Judge(c, "JudgeStyledown", c.SpecDir("StyledText"), "JudgeStyledown", recs, 3, 10*time.Minute)
+	bad, err := lib.Judge(c, "JudgeStyledown", c.SpecDir("StyledText"), "JudgeStyledown", recs, c.Pick(1, 4), 10*time.Minute)
 	if err != nil {
 		return err
 	}
